@@ -98,7 +98,8 @@ func main() {
 		if strings.HasPrefix(diag, "=") { // an already normalised diff class
 			kind += ": " + diag[1:]
 		} else if d := normDiag(diag); d != "" {
-			kind += ": " + d
+			// not attributable to a position: the kind carries the (coarse) shape of the schema
+			kind += ": " + d + " @ " + coarseShape(c.Schema)
 		}
 		bump("fail:" + clause)
 		// The same schema failing the same way in an earlier format is one finding,
